@@ -67,7 +67,9 @@ Definition cvt (f : R) : Z := ZnearestA (fmul 255 (clampR f 0 1)).
 
 Section Libm.
   Variable powf : R -> R -> R.          (* std::pow on float *)
-  Definition inv_gamma : R := fdiv 1 (rnd (22 / 10)).     (* 1.f / 2.2f *)
+  (* 1.f / 2.2f; the literal 2.2f is written as clang prints it (2.20000005 = 44000001/20000000,
+     which rounds to the same float as 2.2) so that the regenerated text matches verbatim *)
+  Definition inv_gamma : R := fdiv 1 (rnd (IZR 44000001 / IZR 20000000)).
   (* c = std::max(f, 0.f); std::pow(c, 1.f/2.2f) *)
   Definition linear_to_srgb (f : R) : R := powf (maxR f 0) inv_gamma.
   (* linear_to_srgba8 = cvt_uint32(linear_to_srgba(c)) *)
